@@ -9,6 +9,7 @@ import (
 	"fmt"
 	"os"
 	"path/filepath"
+	"strconv"
 )
 
 func main() {
@@ -67,6 +68,67 @@ func realMain(args []string) int {
 		fmt.Println(string(jb))
 		fmt.Println(string(ib))
 		return 0
+	case "check":
+		cfg := checkCfg{tier: "quick", seed: 1, workers: 16}
+		if s := os.Getenv("VERIF_SEED"); s != "" {
+			if n, err := strconv.ParseUint(s, 10, 64); err == nil {
+				cfg.seed = n
+			} else if n, err := strconv.ParseInt(s, 10, 64); err == nil {
+				cfg.seed = uint64(n)
+			}
+		}
+		budget := -1.0
+		for i := 1; i < len(args); i++ {
+			switch args[i] {
+			case "-tier":
+				i++
+				cfg.tier = args[i]
+			case "-seed":
+				i++
+				n, err := strconv.ParseUint(args[i], 10, 64)
+				if err != nil {
+					return usage()
+				}
+				cfg.seed = n
+			case "-budget":
+				i++
+				f, err := strconv.ParseFloat(args[i], 64)
+				if err != nil {
+					return usage()
+				}
+				budget = f
+			case "-workers":
+				i++
+				n, _ := strconv.Atoi(args[i])
+				if n > 0 {
+					cfg.workers = n
+				}
+			default:
+				return usage()
+			}
+		}
+		switch cfg.tier {
+		case "quick":
+			cfg.budgetS, cfg.minBatches, cfg.maxBatches, cfg.detBatches, cfg.parBatches, cfg.minimiseS = 50, 48, 4000, 8, 4, 60
+		case "thorough":
+			cfg.budgetS, cfg.minBatches, cfg.maxBatches, cfg.detBatches, cfg.parBatches, cfg.minimiseS = 1200, 64, 1000000, 64, 64, 300
+			if s := os.Getenv("VERIF_BUDGET_S"); s != "" {
+				if f, err := strconv.ParseFloat(s, 64); err == nil && f > 0 {
+					cfg.budgetS = f
+				}
+			}
+		default:
+			return usage()
+		}
+		if budget > 0 {
+			cfg.budgetS = budget
+		}
+		return check(cfg)
+	case "replay":
+		if len(args) != 2 {
+			return usage()
+		}
+		return replay(args[1])
 	case "corpus":
 		c := loadCorpus(filepath.Join(verifDir(), "corpus"))
 		harvest(repoDir(), c)
